@@ -213,7 +213,7 @@ func Run(bh Behaviour, seed int64) ([]Line, error) {
 	var lines []Line
 	var chains []Chain
 	for i, op := range bh.Ops {
-		ln := Line{Tr: bh.Id, I: i + 1, P: p, Op: op, Flags: map[string]bool{"wellformed": true, "derEqProto": true, "leafEqRoot": true, "reload": true}}
+		ln := Line{Tr: bh.Id, I: i + 1, P: p, Op: op, Flags: map[string]bool{"wellformed": true, "derEqProto": true, "leafEqRoot": true, "reload": true, "labels": true}}
 		ln.Pre = r.projRec(r.loadRaw())
 		ln.Now0 = r.virt(time.Now())
 		switch fmt.Sprint(op["op"]) {
@@ -286,6 +286,13 @@ func Run(bh Behaviour, seed int64) ([]Line, error) {
 				}
 				r.certFlags(ret.Current, ln.Flags, "cur")
 				r.certFlags(ret.Next, ln.Flags, "next")
+				// the two roots are LABELLED current and next, in the return value as in storage
+				if ret.Current == nil || ret.Next == nil || ret.Current.Id != string(nodeenrollment.CurrentId) || ret.Next.Id != string(nodeenrollment.NextId) {
+					ln.Flags["labels"] = false
+				}
+				if raw := r.loadRaw(); raw != nil && !skip && (raw.Current == nil || raw.Next == nil || raw.Current.Id != string(nodeenrollment.CurrentId) || raw.Next.Id != string(nodeenrollment.NextId)) {
+					ln.Flags["labels"] = false
+				}
 				// what is stored must load with the same wrapper and carry usable keys
 				if skip {
 					// nothing is stored by design
